@@ -21,7 +21,9 @@
         the summary); it reads the value and the environment only.  types.Render is pure.
    flows/definition/legacy addTranslationMap / MultiMap  also call expressions.MigrateTemplate (ANTLR parser, outside the module): a function
         of its text argument (that is C17's subject).
-   flows/definition flowAssets.FindByName  assets.go:60   first cached flow with the name; see RFirstMatchUnique.
+   (flows/definition flowAssets.FindByName was listed here with reason RFirstMatchUnique under the ASSUMPTION that flow names are
+    unique up to case; the bug hunt supplied two flows named "Registration" / "registration": what the name resolved to followed
+    map order and what other sessions had loaded.  Fixed in goflow as 968ef02: the source resolves the name; the loop is gone.)
    flows/definition languageTranslation.Enumerate  localization.go:61,62   unexported type, no caller.
    flows/definition/legacy TransformTranslations  utils.go:63   every iteration only touches transformed[language].
    flows/definition/legacy migrateRuleSet  definition.go:712   currencyAmounts[cfg.CurrencyCode] = cfg.Amount with an
@@ -49,7 +51,6 @@ Definition map_range_exceptions : list exception_entry := [
   x "excellent/types" "XObject.Get" 0 "map[string]excellent/types.XValue" [EAssignOuter; EFlagSet; ELoopCarried] RMinMatch;
   x "excellent/types" "XObject.initialize" 0 "map[string]excellent/types.XValue" [EAssignOuter; EMapWriteKey] RKeyGuardedAssign;
   x "flows" "Contact.MarshalJSON" 0 "flows.FieldValues" [EMapWriteOther] RValueKeyedByOwnKey;
-  x "flows/definition" "flowAssets.FindByName" 0 "map[assets.FlowUUID]flows.Flow" [EReturnValue] RFirstMatchUnique;
   x "flows/definition" "languageTranslation.Enumerate" 0 "flows/definition.languageTranslation" [ECallback; ENestedMapRange] RNoCaller;
   x "flows/definition" "languageTranslation.Enumerate" 1 "flows/definition.itemTranslation" [ECallback] RNoCaller;
   x "flows/definition/legacy" "TransformTranslations" 0 "flows/definition/legacy.Translations" [EAssignOuter; EMapWriteKey] RKeyPartitioned;
